@@ -400,8 +400,123 @@ func runC10(c *run.Ctx) {
 			}
 		}
 	}
+	injected += c10Menagerie(c)
 	c.MinNontriv = injected / 2
 	c.Set("defects_injected", injected)
+}
+
+// c10Menagerie: a field that only a SIBLING implementer defines, selected where objects of several concrete types pass
+// through one request node (heterogeneous interface/union lists, a fragment shared by fields of different types). For
+// every position whose concrete type does not define the field there must be an error naming it with that position's
+// path, the value there must be null or absent, and positions whose type does define it carry no such error.
+func c10Menagerie(c *run.Ctx) int {
+	n := c.N(150, 6000)
+	done := 0
+	own := map[string]string{"Dog": "barks", "Cat": "lives", "Eel": "volts"}
+	for i := 0; i < n && !c.TooMany(); i++ {
+		r := c.Rand(700000 + i)
+		s := gen.Menagerie(r)
+		sdl := s.SDL(model.SDLOpts{})
+		g := gen.Graph(r, s, gen.GraphOpts{NullProb: 4, PerType: 2})
+		h, err := back.Build("reflect", s, sdl, g)
+		if err != nil {
+			c.Violation("c10-schema-rejected", map[string]interface{}{"sdl": sdl, "error": err.Error()})
+			continue
+		}
+		impls := s.PossibleTypes("Animal")
+		x := own[impls[r.Intn(len(impls))]] // the field only one implementer defines
+		f := func(n string, sels ...model.Sel) *model.Field { return &model.Field{Name: n, Sels: sels} }
+		doc := &model.Doc{}
+		var inner []model.Sel
+		switch r.Intn(3) {
+		case 0:
+			inner = []model.Sel{f("name"), f(x)}
+		case 1:
+			inner = []model.Sel{&model.Inline{Cond: "Animal", Sels: []model.Sel{f(x)}}, f("name")}
+		default:
+			doc.Frags = []*model.FragDef{{Name: "F", Cond: "Animal", Sels: []model.Sel{f("name"), f(x)}}}
+			inner = []model.Sel{&model.Spread{Name: "F"}}
+		}
+		roots := []string{"pets", "anyPet", "a1", "a2", "grid"}
+		for _, im := range impls {
+			roots = append(roots, strings.ToLower(im))
+		}
+		var top []model.Sel
+		for _, ri := range r.Perm(len(roots))[:2+r.Intn(3)] {
+			top = append(top, f(roots[ri], inner...))
+		}
+		doc.Ops = []*model.Op{{Kind: "query", Name: "Q", Sels: top}}
+		text := doc.Print(model.LayoutN(i))
+		out := Do(h, Request{Text: text, OpName: "Q", Entry: i}, nil)
+		done++
+		c.Eval("menagerie|"+text+fmt.Sprint(describeGraph(g)), true)
+		c.Bucket("defect", "field-of-sibling-implementer")
+		c.Bucket("container", "heterogeneous-abstract")
+		c.Bucket("backend", "reflect")
+		rep := func(diag string) {
+			c.Violation("c10-sibling-field", map[string]interface{}{"backend": "reflect", "sdl": sdl, "graph": describeGraph(g), "document": text, "offender": x, "diag": diag, "observed": out.Describe()})
+		}
+		if out.Panic != nil {
+			rep("panic")
+			continue
+		}
+		// expected error paths: walk the data graph along the selected top-level fields
+		have := map[string]int{}
+		for _, p := range out.ErrPaths {
+			// "fragment at L:C" segments under named spreads are C06's open finding K-C06-fragseg, not this property's subject
+			sp, _ := stripFragSegs(p)
+			have[pathKey(sp)]++
+		}
+		q, _ := g.Root.F["query"].(*model.Node)
+		lacking, defining := 0, 0
+		var walk func(v interface{}, path []interface{})
+		bad := ""
+		walk = func(v interface{}, path []interface{}) {
+			switch t := v.(type) {
+			case model.VList:
+				for j, e := range t {
+					walk(e, append(append([]interface{}{}, path...), j))
+				}
+			case *model.Node:
+				p := pathKey(append(append([]interface{}{}, path...), x))
+				if s.Type(t.Type).Field(x) == nil {
+					lacking++
+					if have[p] == 0 && bad == "" {
+						bad = fmt.Sprintf("object of type %s at %s does not define %q but no error addresses %s", t.Type, pathKey(path), x, p)
+					}
+				} else {
+					defining++
+					if have[p] > 0 && bad == "" {
+						bad = fmt.Sprintf("object of type %s at %s defines %q but an error addresses %s", t.Type, pathKey(path), x, p)
+					}
+				}
+			}
+		}
+		for _, tf := range top {
+			walk(q.F[tf.(*model.Field).Name], []interface{}{tf.(*model.Field).Name})
+		}
+		c.Count("sibling_field_positions_lacking", lacking)
+		c.Count("sibling_field_positions_defining", defining)
+		if bad != "" {
+			rep(bad)
+			continue
+		}
+		if lacking > 0 {
+			named := false
+			for _, m := range out.Msgs {
+				if strings.Contains(m, x) {
+					named = true
+				}
+			}
+			if !named {
+				rep("no error message names the offender")
+			}
+		}
+		if i == 0 {
+			c.Sample(map[string]interface{}{"defect": "field-of-sibling-implementer", "document": text, "offender": x, "observed": out.Describe()})
+		}
+	}
+	return done
 }
 
 // c10Reached says whether the chosen operation reaches the offending selection:
